@@ -5,15 +5,45 @@ from concurrent.futures import ThreadPoolExecutor
 from . import smt, solve
 
 
-def script_for(eng, ob, get_values=(), keep_quantifiers=True, extra_terms=True, focused=False):
-    asserts = list(ob.pc) + [smt.Not(ob.goal)]
+def relevant(eng, ob):
+    """hypotheses connected to the goal through shared constants, ignoring hub symbols
+    (dropping hypotheses only weakens them: 'unsat' remains a proof)"""
+    import collections
+    consts = {n for n, (txt, _) in eng.ctx.decls.items() if txt.startswith("(declare-fun %s () " % n)}
+    facts = list(ob.pc)
+    syms = [smt.symbols(f.s) & consts for f in facts]
+    freq = collections.Counter(s for ss in syms for s in ss)
+    limit = max(10, len(facts) // 4)
+    hubs = {s for s, c in freq.items() if c > limit}
+    work = (smt.symbols(ob.goal.s) & consts) - hubs
+    if not work:
+        work = smt.symbols(ob.goal.s) & consts
+    keep = [False] * len(facts)
+    changed = True
+    while changed:
+        changed = False
+        for i, f in enumerate(facts):
+            if keep[i]:
+                continue
+            core = syms[i] - hubs
+            if (core & work) or (not core and len(f.s) < 200):
+                keep[i] = True
+                new = core - work
+                if new:
+                    work |= new
+                    changed = True
+    return [f for f, k in zip(facts, keep) if k]
+
+
+def script_for(eng, ob, get_values=(), keep_quantifiers=True, extra_terms=True, focused=False, sliced=False, unfold=False):
+    asserts = (relevant(eng, ob) if sliced else list(ob.pc)) + [smt.Not(ob.goal)]
     tag = None
     if focused:
         # keep only the universally quantified hypotheses that stem from the clause being proved
         parts = ob.oid.split("#", 1)[1].split(".")
         tag = parts[1] if parts[0].startswith("loop") else None
-    txt = eng.ctx.script(asserts, get_values=get_values, inst_terms=[t.s for t in ob.skolems],
-                         keep_quantifiers=keep_quantifiers, extra_terms=extra_terms, only_tag=tag)
+    txt = eng.ctx.script(asserts, get_values=get_values, inst_terms=list(ob.skolems),
+                         keep_quantifiers=keep_quantifiers, extra_terms=extra_terms, only_tag=tag, unfold=unfold)
     if get_values:
         txt = "(set-option :produce-models true)\n" + txt
     return txt
@@ -29,7 +59,10 @@ def discharge(eng, obligations, timeout_s=10, jobs=None, solvers=None):
         # skolem constants (a weaker, quantifier-free set of hypotheses: 'unsat' is still a proof,
         # 'sat' is not a refutation)
         stages = []
-        for kw in (dict(keep_quantifiers=False, extra_terms=False, focused=True),
+        for kw in (dict(keep_quantifiers=False, extra_terms=False, sliced=True, unfold=True),
+                   dict(keep_quantifiers=False, extra_terms=False, unfold=True),
+                   dict(keep_quantifiers=False, extra_terms=False, sliced=True),
+                   dict(keep_quantifiers=False, extra_terms=False, focused=True),
                    dict(keep_quantifiers=False, extra_terms=False), dict(keep_quantifiers=False, extra_terms=True),
                    dict(keep_quantifiers=True, extra_terms=True)):
             txt = script_for(eng, ob, **kw)
